@@ -1,29 +1,50 @@
 // Correspondence harness for C09.
 //
 // Sequential part: drives real String / Variant / RefCount::Ptr / Xml::Variant variables through
-// handle histories and prints, after every operation, each variable's value, the number of live
-// payload blocks, the number of payload releases, the sharing classes and the reference counters.
+// handle histories and prints, after every operation, each variable's CONTENTS (the characters of a
+// String, the integers held by a Variant container, the texts of the children of an Xml element; T::n
+// and the object's serial number for Ptr), the number of live payload blocks, the number of payload
+// releases, the sharing classes and the reference counters.
 // Payload blocks are counted by ASan's malloc/free hooks inside the window of the library call
-// (String, Variant, Xml::Variant) or by the pointee's constructor/destructor (Ptr).
+// (String, Variant, Xml::Variant) or by the pointee's constructor/destructor (Ptr).  EVERY other
+// allocation made inside a window (list item blocks, hash tables, array buffers, nested strings,
+// child payloads) goes to a second ledger; after every operation that ledger must hold exactly the
+// blocks reachable from the live payloads (`aux=ok`), so a release that skips the payload destructor
+// shows at once.
+// Case configuration: `<flavour> [kind]`, flavour = str | var | ptr | xml (prefix c: concurrent),
+// kind = list | map | array | string (var), element | text (xml), plain | conv (ptr: copy / assign go
+// through Ptr<Derived> and the converting constructor / assignment).
 //
 // Concurrent part (flavours cstr / cvar / cptr / cxml): real threads, each owning its own handle
 // variables, some of which refer to one common payload.  Every atomic operation of the library
 // (`__sync_add_and_fetch`, the only builtin Atomic::increment/decrement use) is bracketed by two
 // scheduling points.  `go <tid...>`: the threads pass a baton, the listed thread ids decide who
-// runs after each scheduling point (the same list drives the Coq interleaving machine); `free <n>`:
-// n repetitions with the threads running freely after a common start signal.  After the join the
-// same observation as in the sequential part is printed, then every handle left is destroyed and the
-// number of payload blocks still allocated is printed (`after=`).
+// runs after each scheduling point; the harness records the ACCESS TRACE of the run: one event
+// `<tid><kind><value>` per access of the library it can observe, in the order in which the threads
+// made them (only one thread runs at a time):
+//   r<n>  the counter of the handle's block, read as a write access / clear() is entered
+//   i<n>  Atomic::increment of a payload counter returned n        d<n>  Atomic::decrement returned n
+//   a     a payload block was allocated                             f     a payload block was released
+//   c     Memory::copy out of a payload block (String) / first allocation made while the container is
+//         copy-constructed from the old payload (Variant, Xml::Variant)
+//   w<c>  the call returned with the handle still on the same block: modified in place, contents c
+// The OCaml driver replays this trace through the Coq machine (RcConc.replay), which accepts an event
+// only if it is the machine's next observable access of that thread with that result.
+// `free <n>`: n repetitions with the threads running freely after a common start signal (no trace).
+// After the join the same observation as in the sequential part is printed, then every handle left is
+// destroyed and the number of blocks still allocated is printed (`after=`).
 #include "vh.hpp"
 #include <pthread.h>
 #include <semaphore.h>
 #include <sched.h>
 
 extern "C" void verif_point(void);
+extern "C" void verif_atomic(const volatile void* p, long long v, unsigned long long r);
 template <class T, class V> static inline T verif_aaf(T volatile* p, V v)
 {
   verif_point();
   T r = __sync_add_and_fetch(p, v);
+  verif_atomic((const volatile void*)p, (long long)v, (unsigned long long)r);
   verif_point();
   return r;
 }
@@ -41,35 +62,93 @@ template <class T, class V> static inline T verif_aaf(T volatile* p, V v)
 extern "C" int __sanitizer_install_malloc_and_free_hooks(void (*malloc_hook)(const volatile void*, size_t),
                                                          void (*free_hook)(const volatile void*));
 
-enum { NV = 6, MAXTH = 4, NSLOT = NV * MAXTH, MAXT = 65536, MAXPROG = 64, MAXSCHED = 4096 };
+enum { NV = 6, MAXTH = 4, NSLOT = NV * MAXTH, MAXT = 65536, MAXPROG = 64, MAXSCHED = 4096, MAXTRACE = 1 << 16 };
 enum Flav { STR, VAR, PTR, XML };
+enum Kind { K_LIST, K_MAP, K_ARRAY, K_STRING, K_ELEMENT, K_TEXT, K_PLAIN, K_CONV };
 typedef Xml::Variant XV;
 static Flav flav;
+static Kind kind;
 static bool conc;
 
-// ---- ledger of payload blocks -----------------------------------------------------------------
+// ---- access trace (baton mode only: one thread runs at a time) -------------------------------------
+static int g_mode = 0;                   // 0: no scheduling, 1: baton passing, 2: free running
+static __thread int g_me = -1;
+static char g_trace[MAXTRACE]; static int g_ntrace; static bool g_trace_overflow;
+static __thread bool op_alloc_seen, op_copy_seen;
+static void tr(char k, const char* arg)
+{
+  if(g_mode != 1 || g_me < 0) return;
+  int n = (int)strlen(arg);
+  if(g_ntrace + n + 4 >= MAXTRACE) { g_trace_overflow = true; return; }
+  g_ntrace += sprintf(g_trace + g_ntrace, " %d%c%s", g_me, k, arg);
+}
+static void trn(char k, unsigned long long v) { char b[32]; sprintf(b, "%llu", v); tr(k, b); }
+static unsigned long long ref_of(int x);
+
+// ---- ledgers ------------------------------------------------------------------------------------
+// window: 0 none, 1 the library call under test, 2 modification of the payload through the reference
+// the call returned, 3 temporaries of the harness.  main ledger: payload blocks (window 1; Variant and
+// Xml::Variant: blocks of the size of the outer block); aux ledger: everything else allocated in a window.
 static __thread int g_win = 0;
-static size_t g_size_filter = 0;          // 0 = every allocation in the window
-static const volatile void* g_tab[MAXT];
-static int g_ntab = 0;
+static size_t g_size_filter = 0;          // 0 = every allocation in window 1 is a payload block
+struct Blk { const volatile void* p; size_t n; };
+static Blk g_tab[MAXT]; static int g_ntab = 0;
+static Blk g_aux[MAXT]; static int g_naux = 0;
 static long g_frees = 0;
 static pthread_mutex_t g_lock = PTHREAD_MUTEX_INITIALIZER;
 
 static void on_malloc(const volatile void* p, size_t n)
 {
   if(!g_win) return;
-  if(g_size_filter && n != g_size_filter) return;
+  bool main = g_win == 1 && (!g_size_filter || n == g_size_filter);
   pthread_mutex_lock(&g_lock);
-  if(g_ntab < MAXT) g_tab[g_ntab++] = p;
+  if(main) { if(g_ntab < MAXT) { g_tab[g_ntab].p = p; g_tab[g_ntab++].n = n; } }
+  else if(g_naux < MAXT) { g_aux[g_naux].p = p; g_aux[g_naux++].n = n; }
   pthread_mutex_unlock(&g_lock);
+  if(main) { tr('a', ""); op_alloc_seen = true; }
+  else if(g_win == 1 && op_alloc_seen && !op_copy_seen) { op_copy_seen = true; tr('c', ""); }
 }
 static void on_free(const volatile void* p)
 {
   if(!p) return;
+  bool main = false;
   pthread_mutex_lock(&g_lock);
   for(int i = g_ntab - 1; i >= 0; --i)
-    if(g_tab[i] == p) { g_tab[i] = g_tab[--g_ntab]; ++g_frees; break; }
+    if(g_tab[i].p == p) { g_tab[i] = g_tab[--g_ntab]; ++g_frees; main = true; break; }
+  if(!main)
+    for(int i = g_naux - 1; i >= 0; --i)
+      if(g_aux[i].p == p) { g_aux[i] = g_aux[--g_naux]; break; }
   pthread_mutex_unlock(&g_lock);
+  if(main) tr('f', "");
+}
+static bool in_main_block(const volatile void* p)
+{
+  bool r = false;
+  pthread_mutex_lock(&g_lock);
+  for(int i = 0; i < g_ntab && !r; ++i)
+    r = (const volatile char*)p >= (const volatile char*)g_tab[i].p && (const volatile char*)p < (const volatile char*)g_tab[i].p + g_tab[i].n;
+  pthread_mutex_unlock(&g_lock);
+  return r;
+}
+static bool in_aux(const void* p)
+{
+  for(int i = 0; i < g_naux; ++i) if(g_aux[i].p == p) return true;
+  return false;
+}
+
+extern "C" void verif_atomic(const volatile void* p, long long v, unsigned long long r)
+{
+  if(g_mode != 1 || g_me < 0) return;
+  if(flav != PTR && !in_main_block(p)) return;     // counters of nested payloads (children, inner strings)
+  trn(v > 0 ? 'i' : 'd', r);
+}
+
+// Memory::copy of libnstd (linked with --wrap): a copy out of a payload block is an event
+extern "C" void __real__ZN6Memory4copyEPvPKvm(void* dest, const void* src, usize length);
+extern "C" void __wrap__ZN6Memory4copyEPvPKvm(void* dest, const void* src, usize length)
+{
+  if(g_win == 1 && g_mode == 1 && g_me >= 0 && flav == STR && in_main_block(src)) { op_copy_seen = true; tr('c', ""); }
+  __real__ZN6Memory4copyEPvPKvm(dest, src, length);
 }
 
 // ---- pointee of the Ptr flavour -----------------------------------------------------------------
@@ -78,10 +157,12 @@ struct T : public RefCount::Object
   int id; long n; unsigned canary;
   static long constructed, destroyed, bad;
   T(long n) : id((int)__sync_fetch_and_add(&constructed, 1)), n(n), canary(0xC0FFEE01u) {}
-  ~T() { if(canary != 0xC0FFEE01u) __sync_fetch_and_add(&bad, 1); canary = 0xDEADDEADu; __sync_fetch_and_add(&destroyed, 1); }
+  ~T() { if(canary != 0xC0FFEE01u) __sync_fetch_and_add(&bad, 1); canary = 0xDEADDEADu; __sync_fetch_and_add(&destroyed, 1); tr('f', ""); }
 };
 long T::constructed = 0, T::destroyed = 0, T::bad = 0;
+struct D : public T { D(long n) : T(n) {} };
 typedef RefCount::Ptr<T> P;
+typedef RefCount::Ptr<D> PD;
 
 // ---- variables: raw storage, explicit construction / destruction ----------------------------------
 union Slot { char s[sizeof(String)]; char v[sizeof(Variant)]; char p[sizeof(P)]; char x[sizeof(XV)]; long long align; double d; };
@@ -92,6 +173,12 @@ static bool live[NSLOT];
 #define Q(i) ((P*)slots[i].p)
 #define X(i) ((XV*)slots[i].x)
 
+static Variant::Type vtype() { return kind == K_MAP ? Variant::mapType : kind == K_ARRAY ? Variant::arrayType : kind == K_STRING ? Variant::stringType : Variant::listType; }
+static XV::Type xtype() { return kind == K_TEXT ? XV::textType : XV::elementType; }
+
+// contents "-": empty
+static int digits_len(const char* d) { return (d[0] == '-' || d[0] == '_') ? 0 : (int)strlen(d); }
+
 static void destroy(int v)
 {
   g_win = 1;
@@ -100,56 +187,209 @@ static void destroy(int v)
   live[v] = false;
 }
 
-static void create(int x, long y)
+// temporaries holding the contents d (window 3)
+static void fill_list(List<Variant>& l, const char* d) { for(int i = 0, n = digits_len(d); i < n; ++i) l.append(Variant((int)(d[i] - '0'))); }
+static void fill_array(Array<Variant>& l, const char* d) { for(int i = 0, n = digits_len(d); i < n; ++i) l.append(Variant((int)(d[i] - '0'))); }
+static void fill_map(HashMap<String, Variant>& l, const char* d) { for(int i = 0, n = digits_len(d); i < n; ++i) l.append(String::fromUInt((uint)i), Variant((int)(d[i] - '0'))); }
+static void fill_element(Xml::Element& e, const char* d) { for(int i = 0, n = digits_len(d); i < n; ++i) e.content.append(XV(String(d + i, 1))); }
+
+static void create(int x, const char* d)
 {
-  if(flav == STR) { g_win = 1; new (slots[x].s) String((usize)y, 'x'); g_win = 0; }
+  if(flav == STR) { g_win = 1; new (slots[x].s) String(d, (usize)digits_len(d)); g_win = 0; }
   else if(flav == VAR) {
-    List<Variant> l;
-    for(long i = 0; i < y; ++i) l.append(Variant((int)i));
-    g_win = 1; new (slots[x].v) Variant(l); g_win = 0;
+    g_win = 3;
+    if(kind == K_LIST) { List<Variant> t; fill_list(t, d); g_win = 1; new (slots[x].v) Variant(t); g_win = 3; }
+    else if(kind == K_MAP) { HashMap<String, Variant> t; fill_map(t, d); g_win = 1; new (slots[x].v) Variant(t); g_win = 3; }
+    else if(kind == K_ARRAY) { Array<Variant> t; fill_array(t, d); g_win = 1; new (slots[x].v) Variant(t); g_win = 3; }
+    else { String t(d, (usize)digits_len(d)); g_win = 1; new (slots[x].v) Variant(t); g_win = 3; }
+    g_win = 0;
   }
   else if(flav == XML) {
-    Xml::Element e;
-    for(long i = 0; i < y; ++i) e.content.append(XV(String("t")));
-    g_win = 1; new (slots[x].x) XV(e); g_win = 0;
+    g_win = 3;
+    if(kind == K_TEXT) { String t(d, (usize)digits_len(d)); g_win = 1; new (slots[x].x) XV(t); g_win = 3; }
+    else { Xml::Element e; fill_element(e, d); g_win = 1; new (slots[x].x) XV(e); g_win = 3; }
+    g_win = 0;
   }
-  else { T* raw = new T(y); new (slots[x].p) P(raw); }
+  else { D* raw = new D(atol(d)); new (slots[x].p) P(raw); }
   live[x] = true;
 }
 static void copy(int x, int y)
 {
   g_win = 1;
-  if(flav == STR) new (slots[x].s) String(*S(y)); else if(flav == VAR) new (slots[x].v) Variant(*V(y)); else if(flav == XML) new (slots[x].x) XV(*X(y)); else new (slots[x].p) P(*Q(y));
+  if(flav == STR) new (slots[x].s) String(*S(y)); else if(flav == VAR) new (slots[x].v) Variant(*V(y)); else if(flav == XML) new (slots[x].x) XV(*X(y));
+  else if(kind == K_CONV) { PD tmp((D*)Q(y)->obj); new (slots[x].p) P(tmp); }          // Ptr(const Ptr<D>&)
+  else new (slots[x].p) P(*Q(y));
   g_win = 0;
   live[x] = true;
 }
 static void assign(int x, int y)
 {
   g_win = 1;
-  if(flav == STR) *S(x) = *S(y); else if(flav == VAR) *V(x) = *V(y); else if(flav == XML) *X(x) = *X(y); else *Q(x) = *Q(y);
+  if(flav == STR) *S(x) = *S(y); else if(flav == VAR) *V(x) = *V(y); else if(flav == XML) *X(x) = *X(y);
+  else if(kind == K_CONV) { PD tmp((D*)Q(y)->obj); *Q(x) = tmp; }                      // operator=(const Ptr<D>&)
+  else *Q(x) = *Q(y);
   g_win = 0;
 }
-static void write(int x)
+// v = <value with contents d>: Variant::operator=(const List&|HashMap&|Array&|String&), Xml::Variant::operator=(const String&)
+static bool assignval(int x, const char* d)
 {
-  if(flav == STR) { g_win = 1; S(x)->append('x'); g_win = 0; }
-  else if(flav == XML) { XV one(String("t")); g_win = 1; X(x)->toElement().content.append(one); g_win = 0; }
-  else if(flav == VAR) { Variant one(1); g_win = 1; V(x)->toList().append(one); g_win = 0; }
+  if(flav == VAR) {
+    g_win = 3;
+    if(kind == K_LIST) { List<Variant> t; fill_list(t, d); g_win = 1; *V(x) = t; g_win = 3; }
+    else if(kind == K_MAP) { HashMap<String, Variant> t; fill_map(t, d); g_win = 1; *V(x) = t; g_win = 3; }
+    else if(kind == K_ARRAY) { Array<Variant> t; fill_array(t, d); g_win = 1; *V(x) = t; g_win = 3; }
+    else { String t(d, (usize)digits_len(d)); g_win = 1; *V(x) = t; g_win = 3; }
+    g_win = 0;
+    return true;
+  }
+  if(flav == XML && kind == K_TEXT) { g_win = 3; { String t(d, (usize)digits_len(d)); g_win = 1; *X(x) = t; g_win = 3; } g_win = 0; return true; }
+  return false;
 }
-// write access that cannot be done in place even when the handle is the only one (String: capacity)
-static void write_force(int x)
+// write access through the non-const accessor, then (m > 0) append marker m through the reference it returned;
+// mode 'r': String::reserve(length + 64)
+static bool write(int x, int m, char mode, bool traced = false)
 {
-  if(flav == STR) { g_win = 1; S(x)->reserve(S(x)->length() + 64); S(x)->append('x'); g_win = 0; }   // reserve clones (capacity too small); the append is then in place
-  else write(x);
+#define TR_REF() do { if(traced) trn('r', ref_of(x)); } while(0)
+  if(flav == STR) {
+    TR_REF();
+    g_win = 1;
+    if(mode == 'r') S(x)->reserve(S(x)->length() + 64);
+    else if(m > 0) S(x)->append((char)('0' + m)); else S(x)->detach();
+    g_win = 0;
+    return true;
+  }
+  if(flav == VAR) {
+    g_win = 3;
+    {
+      Variant one(m);
+      if(kind == K_LIST) { TR_REF(); g_win = 1; List<Variant>& l = V(x)->toList(); g_win = 2; if(m > 0) l.append(one); }
+      else if(kind == K_MAP) { String key = String::fromUInt((uint)((const Variant*)V(x))->toMap().size()); TR_REF(); g_win = 1; HashMap<String, Variant>& l = V(x)->toMap(); g_win = 2; if(m > 0) l.append(key, one); }
+      else if(kind == K_ARRAY) { TR_REF(); g_win = 1; Array<Variant>& l = V(x)->toArray(); g_win = 2; if(m > 0) l.append(one); }
+      else { TR_REF(); g_win = 1; String& l = V(x)->toString(); g_win = 2; if(m > 0) l.append((char)('0' + m)); }
+      g_win = 3;
+    }
+    g_win = 0;
+    return true;
+  }
+  if(flav == XML && kind == K_ELEMENT) {
+    g_win = 3;
+    {
+      char ch = (char)('0' + m);
+      XV one(String(&ch, 1));
+      TR_REF(); g_win = 1; Xml::Element& e = X(x)->toElement(); g_win = 2; if(m > 0) e.content.append(one);
+      g_win = 3;
+    }
+    g_win = 0;
+    return true;
+  }
+  return false;
 }
-static __thread unsigned long g_sink;
-static void readval(int x)
+
+// d.toList().append(s); d = d.toList().back(): an assignment whose source lives inside the payload that the
+// assignment releases.  By value semantics: write access on d, then d = s.
+static void viaelem(int d, int s, bool both)
 {
-  unsigned long a = 0;
-  if(flav == STR) { const String& s = *S(x); a = s.length(); const char* p = (const char*)s.data->str; for(usize i = 0; i < s.length(); ++i) a += (unsigned char)p[i]; }
-  else if(flav == VAR) { const Variant* v = V(x); a = v->toList().size(); }
-  else if(flav == XML) { const XV* v = X(x); a = v->toElement().content.size(); }
-  else { T* o = Q(x)->obj; a = (unsigned long)o->n + (o->canary == 0xC0FFEE01u ? 0 : 1000000); }
-  g_sink += a;
+  if(flav == VAR) {
+    g_win = 3;
+    {
+      String key("k");
+      if(kind == K_LIST) { g_win = 1; List<Variant>& l = V(d)->toList(); if(both) { g_win = 2; l.append(*V(s)); g_win = 1; *V(d) = l.back(); } }
+      else if(kind == K_MAP) { g_win = 1; HashMap<String, Variant>& l = V(d)->toMap(); if(both) { g_win = 2; l.append(key, *V(s)); g_win = 1; *V(d) = l.back(); } }
+      else { g_win = 1; Array<Variant>& l = V(d)->toArray(); if(both) { g_win = 2; l.append(*V(s)); g_win = 1; *V(d) = l.back(); } }
+      g_win = 3;
+    }
+    g_win = 0;
+  } else {
+    g_win = 1; Xml::Element& e = X(d)->toElement(); if(both) { g_win = 2; e.content.append(*X(s)); g_win = 1; *X(d) = e.content.back(); }
+    g_win = 0;
+  }
+}
+
+// ---- contents ---------------------------------------------------------------------------------------
+static int put_digit(char* out, long v) { out[0] = (v >= 0 && v <= 9) ? (char)('0' + v) : '?'; return 1; }
+static int put_chars(char* out, const char* p, usize n)
+{
+  for(usize i = 0; i < n; ++i) out[i] = (p[i] >= '0' && p[i] <= '9') ? p[i] : '?';
+  return (int)n;
+}
+static int string_contents(char* out, const String& s) { return put_chars(out, s.data->str, s.data->len); }
+static int contents(char* out, int i)      // "_" when empty
+{
+  int a = 0;
+  if(flav == STR) a = string_contents(out, *S(i));
+  else if(flav == VAR) {
+    const Variant* v = V(i);
+    if(v->data->type != vtype()) return sprintf(out, "T%d", (int)v->data->type);
+    if(kind == K_LIST) { const List<Variant>& l = v->toList(); for(List<Variant>::Iterator it = l.begin(), e = l.end(); it != e; ++it) a += put_digit(out + a, it->toInt()); }
+    else if(kind == K_MAP) { const HashMap<String, Variant>& l = v->toMap(); for(HashMap<String, Variant>::Iterator it = l.begin(), e = l.end(); it != e; ++it) a += put_digit(out + a, it->toInt()); }
+    else if(kind == K_ARRAY) { const Array<Variant>& l = v->toArray(); for(usize k = 0; k < l.size(); ++k) a += put_digit(out + a, ((const Variant*)l._begin.item)[k].toInt()); }
+    else a = string_contents(out, *(const String*)(v->data + 1));
+  } else if(flav == XML) {
+    const XV* v = X(i);
+    if(v->data->type != xtype()) return sprintf(out, "T%d", (int)v->data->type);
+    if(kind == K_TEXT) a = string_contents(out, *(const String*)(v->data + 1));
+    else {
+      const Xml::Element& el = v->toElement();
+      for(List<XV>::Iterator it = el.content.begin(), e = el.content.end(); it != e; ++it) {
+        const XV& c = *it;
+        if(c.data->type == XV::textType && ((const String*)(c.data + 1))->data->len == 1) a += put_chars(out + a, ((const String*)(c.data + 1))->data->str, 1);
+        else out[a++] = '?';
+      }
+    }
+  }
+  if(a == 0) out[a++] = '_';
+  out[a] = 0;
+  return a;
+}
+
+// ---- blocks reachable from the live payloads (everything but the outer blocks) -----------------------
+static const void* g_reach[MAXT]; static int g_nreach;
+static void reach_add(const void* p) { for(int i = 0; i < g_nreach; ++i) if(g_reach[i] == p) return; if(g_nreach < MAXT) g_reach[g_nreach++] = p; }
+static void reach_string(const String& s) { if(s.data != &String::emptyData && s.data != &s._data) reach_add(s.data); }
+static void reach_variant(const Variant& v, bool outer);
+template <class C> static void reach_blocks(const C& c) { for(typename C::ItemBlock* b = c.blocks; b; b = b->next) reach_add(b); }
+static void reach_variant(const Variant& v, bool outer)
+{
+  if(v.data == &Variant::nullData || v.data == &v._data) return;
+  if(!outer) reach_add(v.data);
+  switch(v.data->type) {
+  case Variant::listType: { const List<Variant>& l = *(const List<Variant>*)(v.data + 1); reach_blocks(l);
+    for(List<Variant>::Iterator it = l.begin(), e = l.end(); it != e; ++it) reach_variant(*it, false); break; }
+  case Variant::mapType: { const HashMap<String, Variant>& l = *(const HashMap<String, Variant>*)(v.data + 1); reach_blocks(l); if(l.data) reach_add(l.data);
+    for(HashMap<String, Variant>::Iterator it = l.begin(), e = l.end(); it != e; ++it) { reach_string(it.key()); reach_variant(*it, false); } break; }
+  case Variant::arrayType: { const Array<Variant>& l = *(const Array<Variant>*)(v.data + 1); if(l._begin.item) reach_add(l._begin.item);
+    for(usize k = 0; k < l.size(); ++k) reach_variant(((const Variant*)l._begin.item)[k], false); break; }
+  case Variant::stringType: reach_string(*(const String*)(v.data + 1)); break;
+  default: break;
+  }
+}
+static void reach_xml(const XV& v, bool outer)
+{
+  if(v.data == &XV::nullData) return;
+  if(!outer) reach_add(v.data);
+  if(v.data->type == XV::textType) reach_string(*(const String*)(v.data + 1));
+  else if(v.data->type == XV::elementType) {
+    const Xml::Element& el = *(const Xml::Element*)(v.data + 1);
+    reach_string(el.type);
+    reach_blocks(el.attributes); if(el.attributes.data) reach_add(el.attributes.data);
+    for(HashMap<String, String>::Iterator it = el.attributes.begin(), e = el.attributes.end(); it != e; ++it) { reach_string(it.key()); reach_string(*it); }
+    reach_blocks(el.content);
+    for(List<XV>::Iterator it = el.content.begin(), e = el.content.end(); it != e; ++it) reach_xml(*it, false);
+  }
+}
+// 0 = the aux ledger holds exactly the reachable blocks
+static int aux_check(int nslots, long* n_ledger, long* n_reach)
+{
+  g_nreach = 0;
+  for(int i = 0; i < nslots; ++i) {
+    if(!live[i]) continue;
+    if(flav == VAR) reach_variant(*V(i), true); else if(flav == XML) reach_xml(*X(i), true);
+  }
+  *n_ledger = g_naux; *n_reach = g_nreach;
+  int bad = 0;
+  for(int i = 0; i < g_nreach; ++i) if(!in_aux(g_reach[i])) ++bad;
+  if(g_naux != g_nreach) ++bad;
+  return bad;
 }
 
 static long live_blocks() { return flav == PTR ? T::constructed - T::destroyed : g_ntab; }
@@ -158,24 +398,24 @@ static long releases() { return flav == PTR ? T::destroyed : g_frees; }
 static void observe_to(char* out, int nslots, int group)
 {
   const void* cls[NSLOT]; int ncls = 0;
-  char vals[1024], classes[512], rcs[1024];
+  static char vals[NSLOT * 160], classes[512], rcs[1024];
   int a = 0, b = 0, r = 0;
   for(int i = 0; i < nslots; ++i) {
     const void* blk = 0; unsigned long long rc = 0; bool same = true;
     if(group && i && i % group == 0) { a += sprintf(vals + a, "; "); b += sprintf(classes + b, "; "); r += sprintf(rcs + r, "; "); }
     if(!live[i]) { a += sprintf(vals + a, "D "); }
     else if(flav == STR) {
-      a += sprintf(vals + a, "%llu ", (unsigned long long)S(i)->length());
+      a += contents(vals + a, i); vals[a++] = ' ';
       if(S(i)->data != &String::emptyData && S(i)->data != &S(i)->_data) { blk = S(i)->data; rc = S(i)->data->ref; }
     } else if(flav == VAR) {
       const Variant* v = V(i);
       if(v->isNull()) a += sprintf(vals + a, "- ");
-      else { a += sprintf(vals + a, "%llu ", (unsigned long long)v->toList().size()); }
+      else { a += contents(vals + a, i); vals[a++] = ' '; }
       if(v->data != &Variant::nullData && v->data != &v->_data) { blk = v->data; rc = v->data->ref; }   // _data: inline, never counted
     } else if(flav == XML) {
       const XV* v = X(i);
       if(v->isNull()) a += sprintf(vals + a, "- ");
-      else { a += sprintf(vals + a, "%llu ", (unsigned long long)v->toElement().content.size()); }
+      else { a += contents(vals + a, i); vals[a++] = ' '; }
       if(v->data != &XV::nullData) { blk = v->data; rc = v->data->ref; }
     } else {
       P* p = Q(i);
@@ -198,21 +438,21 @@ static void observe_to(char* out, int nslots, int group)
     }
   }
   vals[a ? a - 1 : 0] = 0; classes[b ? b - 1 : 0] = 0; rcs[r ? r - 1 : 0] = 0;
-  if(group) sprintf(out, "%s | live=%ld | %s | %s", vals, live_blocks(), classes, rcs);
-  else sprintf(out, "%s | live=%ld dtors=%ld | %s | %s", vals, live_blocks(), releases(), classes, rcs);
+  long nl, nr; char aux[64];
+  if(aux_check(nslots, &nl, &nr)) sprintf(aux, "aux=BAD(ledger:%ld,reachable:%ld)", nl, nr); else strcpy(aux, "aux=ok");
+  if(group) sprintf(out, "%s | live=%ld %s | %s | %s", vals, live_blocks(), aux, classes, rcs);
+  else sprintf(out, "%s | live=%ld dtors=%ld %s | %s | %s", vals, live_blocks(), releases(), aux, classes, rcs);
 }
 
 // ================================ concurrent part =================================================
-struct COp { char kind; int a, b; };     // c copy, a assign, d drop, w write, W write(force), r read, s swap
-static int c_nth, c_nv; static long c_val;
+struct COp { char kind; int a, b; };     // c copy, a assign, d drop, w write (b = marker), W reserve, R reset, r read, s swap
+static int c_nth, c_nv; static char c_val[128];
 static int c_own[MAXTH];
 static COp c_prog[MAXTH][MAXPROG]; static int c_len[MAXTH];
 
-static int g_mode = 0;                   // 0: no scheduling, 1: baton passing, 2: free running
 static int g_sched[MAXSCHED]; static int g_nsched, g_spos;
 static sem_t g_sem[MAXTH], g_sem_main;
 static volatile int g_done[MAXTH];
-static __thread int g_me = -1;
 static int g_start;
 
 static int pick_next(int me)
@@ -233,17 +473,58 @@ extern "C" void verif_point(void)
   if(next != g_me && next >= 0) { sem_post(&g_sem[next]); sem_wait(&g_sem[g_me]); }
 }
 
+static const void* data_of(int x)
+{
+  return flav == STR ? (const void*)S(x)->data : flav == VAR ? (const void*)V(x)->data : flav == XML ? (const void*)X(x)->data : (const void*)Q(x)->obj;
+}
+static unsigned long long ref_of(int x)
+{
+  return flav == STR ? (unsigned long long)S(x)->data->ref : flav == VAR ? (unsigned long long)V(x)->data->ref : flav == XML ? (unsigned long long)X(x)->data->ref : 0;
+}
+static __thread unsigned long g_sink;
+static void readval(int x)
+{
+  char buf[256]; unsigned long a = 0;
+  if(flav == PTR) { T* o = Q(x)->obj; a = (unsigned long)o->n + (o->canary == 0xC0FFEE01u ? 0 : 1000000); }
+  else { int n = contents(buf, x); for(int i = 0; i < n; ++i) a += (unsigned char)buf[i]; }
+  g_sink += a;
+}
+// a write access of a thread: the counter as the call is entered, then the call, then (handle still on
+// the same block and nothing allocated) the contents as modified in place
+static void traced_write(int x, int m, char mode)
+{
+  const void* before = data_of(x);
+  write(x, m, mode, true);
+  if(data_of(x) == before && !op_alloc_seen) { char buf[256]; contents(buf, x); tr('w', buf); }
+}
+
 static void exec_op(int t, const COp& o)
 {
   int base = t * NV;
   int x = base + o.a, y = base + o.b;
   bool ax = o.a >= 0 && o.a < c_nv, bx = o.b >= 0 && o.b < c_nv;
+  op_alloc_seen = op_copy_seen = false;
   switch(o.kind) {
   case 'c': if(ax && bx && !live[x] && live[y]) copy(x, y); break;
   case 'a': if(ax && bx && live[x] && live[y]) assign(x, y); break;
   case 'd': if(ax && live[x]) destroy(x); break;
-  case 'w': if(ax && live[x]) write(x); break;
-  case 'W': if(ax && live[x]) write_force(x); break;
+  case 'w': if(ax && live[x] && flav != PTR) traced_write(x, o.b, 'w'); break;
+  case 'W': if(ax && live[x] && flav != PTR) traced_write(x, 0, 'r'); break;
+  case 'R':                       // String: clear(), then the handle is destroyed; the others: clear() is what the destructor calls
+    if(ax && live[x]) {
+      if(flav == STR) {
+        const void* before = data_of(x);
+        trn('r', ref_of(x));
+        g_win = 1; S(x)->clear(); g_win = 0;
+        if(data_of(x) == before) tr('w', "_");
+        op_alloc_seen = op_copy_seen = false;
+      }
+      else if(flav == VAR) { g_win = 1; V(x)->clear(); g_win = 0; }
+      else if(flav == XML) { g_win = 1; X(x)->clear(); g_win = 0; }
+      else { g_win = 1; *Q(x) = (T*)0; g_win = 0; }
+      destroy(x);
+    }
+    break;
   case 'r': if(ax && live[x]) readval(x); break;
   case 's': if(flav == PTR && ax && bx && live[x] && live[y] && x != y) Q(x)->swap(*Q(y)); break;
   }
@@ -267,7 +548,7 @@ static void* thread_main(void* arg)
 static void conc_reset()
 {
   for(int i = 0; i < NSLOT; ++i) if(live[i]) destroy(i);
-  g_ntab = 0; g_frees = 0;
+  g_ntab = 0; g_naux = 0; g_frees = 0;
   T::constructed = T::destroyed = T::bad = 0;
 }
 
@@ -275,6 +556,7 @@ static void conc_reset()
 static void conc_run(char* out)
 {
   conc_reset();
+  g_ntrace = 0; g_trace[0] = 0; g_trace_overflow = false;
   // the common payload, and the threads' handles to it; the creating handle is dropped before the start
   int first = -1;
   for(int t = 0; t < c_nth && first < 0; ++t) if(c_own[t] > 0) first = t * NV;
@@ -296,18 +578,21 @@ static void conc_run(char* out)
   else __atomic_store_n(&g_start, 1, __ATOMIC_RELEASE);
   for(int t = 0; t < c_nth; ++t) pthread_join(th[t], 0);
   int mode = g_mode; g_mode = 0;
-  char obs[4096];
+  static char obs[NSLOT * 160 + 2048];
   observe_to(obs, c_nth * NV, NV);
   for(int i = 0; i < NSLOT; ++i) if(live[i]) destroy(i);
-  sprintf(out, "%s | after=%ld%s", obs, live_blocks(), T::bad ? " BADCANARY" : "");
+  int n = sprintf(out, "%s | after=%ld%s", obs, live_blocks() + g_naux, T::bad ? " BADCANARY" : "");
+  if(mode == 1) sprintf(out + n, " | trace%s%s", g_ntrace ? g_trace : " -", g_trace_overflow ? " OVERFLOW" : "");
   g_mode = mode;
 }
+
+static char g_out[NSLOT * 160 + 4096 + MAXTRACE], g_first[NSLOT * 160 + 4096 + MAXTRACE];
 
 static void conc_op(long c, vh::Tok& t)
 {
   const char* o = t.v[0];
   if(!strcmp(o, "init")) {
-    c_val = t.n > 1 ? atol(t.v[1]) : 0;
+    strncpy(c_val, t.n > 1 ? t.v[1] : "-", sizeof(c_val) - 1); c_val[sizeof(c_val) - 1] = 0;
     c_nv = t.n > 2 ? atoi(t.v[2]) : 1;
     if(c_nv > NV) c_nv = NV; if(c_nv < 1) c_nv = 1;
     c_nth = t.n - 3; if(c_nth > MAXTH) c_nth = MAXTH; if(c_nth < 0) c_nth = 0;
@@ -319,27 +604,29 @@ static void conc_op(long c, vh::Tok& t)
       COp op; op.a = atoi(t.v[3]); op.b = t.n > 4 ? atoi(t.v[4]) : 0;
       const char* k = t.v[2];
       op.kind = !strcmp(k, "copy") ? 'c' : !strcmp(k, "assign") ? 'a' : !strcmp(k, "drop") ? 'd' : !strcmp(k, "read") ? 'r' :
-                !strcmp(k, "swap") ? 's' : !strcmp(k, "write") ? (t.n > 4 && !strcmp(t.v[4], "force") ? 'W' : 'w') : '?';
+                !strcmp(k, "swap") ? 's' : !strcmp(k, "reset") ? 'R' : !strcmp(k, "reserve") ? 'W' : !strcmp(k, "write") ? 'w' : '?';
+      if(op.kind == 'w' && (op.b < 1 || op.b > 7)) op.b = 1;
       c_prog[tid][c_len[tid]++] = op;
     }
     printf("%ld t\n", c);
+  } else if(!strcmp(o, "trace")) {
+    // input of the model driver only (the check inserts the recorded trace in front of `go`)
   } else if(!strcmp(o, "go")) {
     g_nsched = 0;
     for(int i = 1; i < t.n && g_nsched < MAXSCHED; ++i) g_sched[g_nsched++] = atoi(t.v[i]);
-    char out[4608];
-    g_mode = 1; conc_run(out); g_mode = 0;
-    printf("%ld %s\n", c, out);
+    g_mode = 1; conc_run(g_out); g_mode = 0;
+    printf("%ld %s\n", c, g_out);
   } else if(!strcmp(o, "free")) {
     int reps = t.n > 1 ? atoi(t.v[1]) : 1;
-    char first[4608], out[4608]; first[0] = 0;
+    g_first[0] = 0;
     bool same = true;
     for(int r = 0; r < reps; ++r) {
-      g_mode = 2; conc_run(out); g_mode = 0;
-      if(r == 0) strcpy(first, out);
-      else if(strcmp(first, out)) { same = false; break; }
+      g_mode = 2; conc_run(g_out); g_mode = 0;
+      if(r == 0) strcpy(g_first, g_out);
+      else if(strcmp(g_first, g_out)) { same = false; break; }
     }
-    if(same) printf("%ld %s\n", c, first);
-    else printf("%ld DIFFERENT-RUNS `%s` vs `%s`\n", c, first, out);
+    if(same) printf("%ld %s\n", c, g_first);
+    else printf("%ld DIFFERENT-RUNS `%s` vs `%s`\n", c, g_first, g_out);
   } else printf("%ld ?unknown-op\n", c);
 }
 
@@ -349,21 +636,35 @@ static void begin(long, vh::Tok& t)
   for(int i = 0; i < NSLOT; ++i) if(live[i]) destroy(i);
   flav = STR; conc = false;
   const char* f = t.n > 2 ? t.v[2] : "str";
+  const char* k = t.n > 3 ? t.v[3] : "";
   if(f[0] == 'c') { conc = true; ++f; }
   if(!strcmp(f, "var")) flav = VAR;
   if(!strcmp(f, "ptr")) flav = PTR;
   if(!strcmp(f, "xml")) flav = XML;
-  g_size_filter = flav == VAR ? sizeof(Variant::Data) + sizeof(List<Variant>) : flav == XML ? sizeof(XV::Data) + sizeof(Xml::Element) : 0;
-  g_ntab = 0; g_frees = 0;
+  kind = flav == VAR ? K_LIST : flav == XML ? K_ELEMENT : K_PLAIN;
+  if(flav == VAR) kind = !strcmp(k, "map") ? K_MAP : !strcmp(k, "array") ? K_ARRAY : !strcmp(k, "string") ? K_STRING : K_LIST;
+  if(flav == XML) kind = !strcmp(k, "text") ? K_TEXT : K_ELEMENT;
+  if(flav == PTR) kind = !strcmp(k, "conv") ? K_CONV : K_PLAIN;
+  g_size_filter = 0;
+  if(flav == VAR) g_size_filter = sizeof(Variant::Data) + (kind == K_MAP ? sizeof(HashMap<String, Variant>) : kind == K_ARRAY ? sizeof(Array<Variant>) : kind == K_STRING ? sizeof(String) : sizeof(List<Variant>));
+  if(flav == XML) g_size_filter = sizeof(XV::Data) + (kind == K_TEXT ? sizeof(String) : sizeof(Xml::Element));
+  g_ntab = 0; g_naux = 0; g_frees = 0;
   T::constructed = T::destroyed = T::bad = 0;
-  c_nth = 0; c_nv = 1; c_val = 0;
+  c_nth = 0; c_nv = 1; strcpy(c_val, "-");
 }
 
 static void observe(long c)
 {
-  char out[4096];
+  static char out[NSLOT * 160 + 2048];
   observe_to(out, NV, 0);
   printf("%ld %s\n", c, out);
+}
+
+static bool is_digits(const char* d)
+{
+  if(!strcmp(d, "-")) return true;
+  for(const char* p = d; *p; ++p) if(*p < '1' || *p > '7') return false;
+  return d[0] != 0 && strlen(d) <= 64;
 }
 
 static void op(long c, long, vh::Tok& t)
@@ -371,12 +672,14 @@ static void op(long c, long, vh::Tok& t)
   if(conc) { conc_op(c, t); return; }
   const char* o = t.v[0];
   int x = t.n > 1 ? atoi(t.v[1]) : 0;
-  long y = t.n > 2 ? atol(t.v[2]) : 0;
+  const char* arg = t.n > 2 ? t.v[2] : "-";
+  long y = atol(arg);
   if(x < 0 || x >= NV) { printf("%ld ?bad-var\n", c); return; }
-  bool two = !strcmp(o, "copy") || !strcmp(o, "fromraw") || !strcmp(o, "assign") || !strcmp(o, "swap");
+  bool two = !strcmp(o, "copy") || !strcmp(o, "fromraw") || !strcmp(o, "assign") || !strcmp(o, "assignraw") || !strcmp(o, "swap") || !strcmp(o, "viaelem");
   if(two && (y < 0 || y >= NV)) { printf("%ld ?bad-var\n", c); return; }
   if(!strcmp(o, "create")) {
-    if(!live[x]) create(x, y);
+    if(flav != PTR && !is_digits(arg)) { printf("%ld ?bad-contents\n", c); return; }
+    if(!live[x]) create(x, arg);
   } else if(!strcmp(o, "null")) {
     if(!live[x]) {
       g_win = 1;
@@ -390,6 +693,15 @@ static void op(long c, long, vh::Tok& t)
     if(flav == PTR && !live[x] && live[y]) { new (slots[x].p) P(Q(y)->operator->()); live[x] = true; }
   } else if(!strcmp(o, "assign")) {
     if(live[x] && live[y]) assign(x, (int)y);
+  } else if(!strcmp(o, "assignraw")) {            // Ptr::operator=(C*), also with the object the handle itself refers to
+    if(flav == PTR && live[x] && live[y]) { T* raw = Q(y)->operator->(); *Q(x) = raw; }
+  } else if(!strcmp(o, "viaelem")) {
+    if(!((flav == VAR && kind != K_STRING) || (flav == XML && kind == K_ELEMENT))) { printf("%ld ?unsupported\n", c); return; }
+    if(live[x]) viaelem(x, (int)y, live[y] && x != (int)y);
+  } else if(!strcmp(o, "assignval")) {
+    if(!is_digits(arg)) { printf("%ld ?bad-contents\n", c); return; }
+    if(flav == XML && kind == K_ELEMENT) { printf("%ld ?unsupported\n", c); return; }
+    if(live[x]) assignval(x, arg);
   } else if(!strcmp(o, "reset")) {
     if(live[x]) {
       g_win = 1;
@@ -399,13 +711,12 @@ static void op(long c, long, vh::Tok& t)
   } else if(!strcmp(o, "swap")) {
     if(flav == PTR && live[x] && live[y] && x != y) Q(x)->swap(*Q(y));
   } else if(!strcmp(o, "write")) {
-    if(live[x] && flav != PTR) write(x);
+    if(y < 1 || y > 7) { printf("%ld ?bad-contents\n", c); return; }
+    if(flav == XML && kind == K_TEXT) { printf("%ld ?unsupported\n", c); return; }
+    if(live[x] && flav != PTR) write(x, (int)y, 'w');
   } else if(!strcmp(o, "detach")) {
-    if(live[x] && flav != PTR) {
-      g_win = 1;
-      if(flav == STR) S(x)->detach(); else if(flav == XML) X(x)->toElement(); else V(x)->toList();
-      g_win = 0;
-    }
+    if(flav == XML && kind == K_TEXT) { printf("%ld ?unsupported\n", c); return; }
+    if(live[x] && flav != PTR) write(x, 0, 'w');
   } else if(!strcmp(o, "destroy")) {
     if(live[x]) destroy(x);
   } else { printf("%ld ?unknown-op\n", c); return; }
@@ -417,11 +728,14 @@ static void end(long c)
   for(int i = 0; i < NSLOT; ++i) if(live[i]) destroy(i);
   if(conc) { printf("%ld end\n", c); return; }
   if(T::bad) printf("%ld end BADCANARY\n", c);
-  else printf("%ld end | live=%ld dtors=%ld\n", c, live_blocks(), releases());
+  else printf("%ld end | live=%ld dtors=%ld aux=%s\n", c, live_blocks(), releases(), g_naux ? "LEAK" : "ok");
 }
 
 int main(int argc, char** argv)
 {
+  // the const accessors hold function-local statics; their first use registers a destructor with atexit,
+  // which may allocate: do that before any window is opened
+  { const Variant v; v.toMap(); v.toList(); v.toArray(); const XV x; x.toElement(); }
   __sanitizer_install_malloc_and_free_hooks(on_malloc, on_free);
   return vh::run(argc, argv, begin, op, end);
 }
